@@ -433,6 +433,11 @@ func (s *Service) accountPathsToVerificationRegexes(paths []string) map[string][
 		parts[0] = strings.TrimSuffix(parts[0], "$")
 		parts[1] = strings.TrimPrefix(parts[1], "^")
 		parts[1] = strings.TrimSuffix(parts[1], "$")
+		if strings.Contains(parts[1], "|") {
+			// Group the account expression so that the wallet and the anchors apply to
+			// all of it, not just to the first and last branch of the alternation.
+			parts[1] = fmt.Sprintf("(?:%s)", parts[1])
+		}
 		specifier := fmt.Sprintf("^%s/%s$", parts[0], parts[1])
 		regex, err := regexp.Compile(specifier)
 		if err != nil {
